@@ -1,7 +1,9 @@
 #include "hx.hpp"
+#include "hx_fault.hpp"
 int main(int argc, char** argv) {
   verif::Ctx C(argc, argv);
   if (C.mode == "bfs") hx::runLevel(C);
+  else if (C.mode == "fault") hx::runFault(C);
   else { fprintf(stderr, "unknown mode %s\n", C.mode.c_str()); return 3; }
   return C.finish();
 }
